@@ -39,16 +39,64 @@ func c161(c *an.Ctx, p *an.Prog) {
 		return
 	}
 	checkResultRule(c, p, check, "C16.1", []string{"valid", "admin", "supported"})
-	// per-iteration structure
-	hdrs := loopHeaders(check)
-	if len(hdrs) != 1 {
-		c.Undecided("C16.1", fnKey(check)+"|loop", "-", fmt.Sprintf("UNRESOLVED: expected one loop over the directory entries in Check, found %d", len(hdrs)))
+	// per-iteration structure: the loop over the directory entries is the loop some iteration of which examines an entry
+	// (calls checkUserFile); it stands in Check or in a walker interpreted inline whose callback is a closure of Check
+	var entry []loopSite
+	var other []loopSite
+	for _, l := range loopSites(check) {
+		if l.calls(storePkg + ".checkUserFile") {
+			entry = append(entry, l)
+		} else {
+			other = append(other, l)
+		}
+	}
+	if len(entry) != 1 {
+		c.Undecided("C16.1", fnKey(check)+"|loop", "-", fmt.Sprintf("UNRESOLVED: expected one loop over the directory entries in Check, found %d", len(entry)))
 		return
 	}
-	hdr := hdrs[0]
+	loop := entry[0]
 	var badExt, badDup, badTmp []string
+	// a further loop around or next to it (the walker's loop over batches of names) examines nothing: every entry the
+	// directory read delivers must reach the loop over the entries, so such a loop may only be left with an error or when
+	// the directory has been read to its end
+	for _, l := range other {
+		l.exits(func(s *an.PathState) {
+			ret := lastReturn(s)
+			if ret == nil || len(ret.Args) != 1 {
+				return
+			}
+			for _, e := range s.Events {
+				if e.Kind == "call" && e.Callee == storePkg+".checkUserFile" {
+					return // left from inside the loop over the entries: judged there
+				}
+			}
+			if r := ret.Args[0]; s.NonNil(r) || an.KnownNonNil(r) {
+				return
+			}
+			if !readToEnd(s) {
+				badTmp = append(badTmp, "the loop around the loop over the entries is left on path "+s.BlockPath()+" without an error although the directory may hold further entries ["+s.FactsString()+"]")
+			}
+		})
+	}
 	n := 0
-	er := an.EnumPathsTo(check, hdr, nil, hdr, func(s *an.PathState) {
+	// an iteration that has examined an entry leaves the loop only with an error: stopping the walk early would leave
+	// the remaining entries unexamined
+	loop.exits(func(s *an.PathState) {
+		ret := lastReturn(s)
+		if ret == nil || len(ret.Args) != 1 {
+			return
+		}
+		examined := false
+		for _, e := range s.Events {
+			if e.Kind == "call" && e.Callee == storePkg+".checkUserFile" {
+				examined = true
+			}
+		}
+		if r := ret.Args[0]; examined && !(s.NonNil(r) || an.KnownNonNil(r)) {
+			badTmp = append(badTmp, "path "+s.BlockPath()+" leaves the loop after examining an entry without reporting an error: the remaining entries are never examined ["+s.FactsString()+"]")
+		}
+	})
+	er := loop.iter(func(s *an.PathState) {
 		c.Stats["cfg_paths_enumerated"]++
 		if s.StopBlock == nil {
 			return // the iteration left the function (error return or loop exit)
